@@ -256,6 +256,22 @@ func ruleST4(c *Ctx) {
 		if !probes || nme == "path/filepath.Join" {
 			continue
 		}
+		// a probe asks the file system (os.Stat, or a module helper doing so); an observer callback handed the candidate
+		// for tracing is not one
+		asksFS := nme == "os.Stat" || nme == "os.Lstat"
+		if cal := calleeOf(call.Common()); !asksFS && cal != nil && c.InModule(cal) && cal.Blocks != nil {
+			if len(callsNamed(cal, "os.Stat", "os.Lstat")) > 0 {
+				asksFS = true
+			}
+			for g := range c.F.TransitiveCallees(cal) {
+				if g.Blocks != nil && len(callsNamed(g, "os.Stat", "os.Lstat")) > 0 {
+					asksFS = true
+				}
+			}
+		}
+		if !asksFS {
+			continue
+		}
 		np++
 		pb := call.Block()
 		fromP := reach(pb, nil, nil)
@@ -402,6 +418,9 @@ func ruleDT8(c *Ctx) {
 				cal := calleeOf(&cl.Call)
 				if cal == rd || cal == re || (cal != nil && (c.inUnit(cal, lg) || inFamily[cal])) {
 					continue
+				}
+				if c.eventsLoaderKind(cal) != "" {
+					continue // the reader behind a helper that adds no failure of its own
 				}
 				bad = calleeFullName(&cl.Call)
 			}
